@@ -80,6 +80,12 @@ def programs(tier):
                         bodies.append(("if(m%s%d)" % (rn, k),
                                        lambda s, rf=rf, k=k: _fe_ifelse(s, lambda s2, i: rf(s2.m, k)),
                                        lambda v, rf=rf, k=k: all(x == (1 if rf(2, k) else 2) for x in v["l"])))
+                for k in (0, 1, 2):
+                    bodies.append(("if(e[i]==%d)" % k,
+                                   lambda s, k=k: _fe_ifelse(s, lambda s2, i: s2.e[i] == k),
+                                   lambda v, k=k: all(x == (1 if E_VALS[i] == k else 2) for i, x in enumerate(v["l"]))))
+                bodies.append(("if(e[i]>m-1)", lambda s: _fe_ifelse(s, lambda s2, i: s2.e[i] > s2.m - 1),
+                               lambda v: all(x == (1 if E_VALS[i] > 1 else 2) for i, x in enumerate(v["l"]))))
             if signed:
                 bodies += [("it<0", lambda s: _fe_it(s, lambda it: it < 0), lambda v: all(x < 0 for x in v["l"])),
                            ("sum==-3", lambda s: s.l.sum == -3, lambda v: sum(v["l"]) == -3)]
@@ -179,12 +185,19 @@ def _mk_fixed(T, sz, bld):
                 self.l = vsc.rand_list_t(T(), sz)
                 self.n = vsc.rand_bit_t(3)
                 self.m = vsc.bit_t(3, i=2)
+                # a non-random list (values E_VALS): conditions may read its elements by the foreach index
+                self.e = vsc.list_t(vsc.bit_t(2), len(E_VALS))
+                for k, v in enumerate(E_VALS):
+                    self.e[k] = v
 
             @vsc.constraint
             def cl(self):
                 bld(self)
         return C
     return mk
+
+
+E_VALS = (1, 0, 2, 1, 0, 2, 2, 1, 0, 1)
 
 
 def _mk_two(sz):
